@@ -51,6 +51,13 @@ def contracts():
     cs.append(Equiv('core.register', 'ref_registry.module_register_ref', args={'target_type': 'ref', 'kwargs': 'kw:get'}))
     from contracts import extra
     cs += common.shared(extra, ['core.TargetRegistry._register_fuzzy_type', 'core.TargetRegistry.register_op'])
+    # construction: a registry owns fresh state; the default registrations happen in the documented order
+    for name, req in (('defaults', ['register_default_types']), ('bare', ['not register_default_types'])):
+        cs.append(Equiv('core.TargetRegistry.__init__', 'ref_registry.registry_init_ref', label='core.TargetRegistry.__init__[%s]' % name,
+                        args={'self': REG, 'register_default_types': 'bool'}, requires=req,
+                        config=lambda cfg: cfg.summaries.update({'core.TargetRegistry.register_op': 'register_op',
+                                                                 'core.TargetRegistry._register_default_types': 'register_defaults'})))
+    cs.append(Equiv('core.TargetRegistry._register_default_types', 'ref_registry.default_types_ref', args={'self': REG}))
     return cs
 
 
